@@ -12,7 +12,8 @@ succeeded), `rstep` (a value was read from `redoCh`), `rtimeout` (the 30 s retry
 `redoCh` has capacity 1 and is written without blocking: `Requester.redo`.
 Signatures are a parameter `sigOK key signBytes sig`. Block ids (hash + part-set header) are
 opaque values carried by the block: the code computes them from the content (`Hash`,
-`MakePartSet`), so the model admits strictly more behaviours (colliding ids). Voting powers are
+`MakePartSet`), so the model admits strictly more behaviours (colliding ids). The validator sets
+shift per height as `updateState` does (`Block.nextVals` = what executing the block yields). Voting powers are
 mathematical integers: `TotalVotingPower`'s clip at `MaxTotalVotingPower` is dead for the sets a
 `ValidatorSet` can hold, and for non-negative totals Go's truncating `/` is Lean's `/`. -/
 namespace Tmv.BlockSync
